@@ -532,9 +532,12 @@ class DataHandler:
         # buff 20 with other modifiers (a rebuild must drop what only the old data had)
         buff_mods = [{'dogmaAttributeID': 100}, {'dogmaAttributeID': 101}][:1 + k % 2]
         self.t = dict(
-            evetypes=[{'typeID': 1, 'groupID': 5}, {'typeID': 2, 'groupID': 6}, {'typeID': 10 + k, 'groupID': 5}],
+            # type 2 carries a built-in column the normalizer turns into a type attribute (mass -> attribute 4)
+            evetypes=[{'typeID': 1, 'groupID': 5}, {'typeID': 2, 'groupID': 6, 'mass': 1000.0 + s},
+                      {'typeID': 10 + k, 'groupID': 5}],
             evegroups=[{'groupID': 5, 'categoryID': 6}, {'groupID': 6, 'categoryID': 7}],
-            dgmattribs=[{'attributeID': 100, 'defaultValue': 0.0, 'highIsGood': True, 'stackable': True},
+            dgmattribs=[{'attributeID': int(AttrId.mass), 'stackable': True},
+                        {'attributeID': 100, 'defaultValue': 0.0, 'highIsGood': True, 'stackable': True},
                         {'attributeID': 101, 'stackable': False},
                         {'attributeID': int(AttrId.warfare_buff_1_id), 'stackable': True}],
             dgmtypeattribs=[{'typeID': 1, 'attributeID': 100, 'value': 50.0 + s},
@@ -571,7 +574,7 @@ def served(handler):
             out['type%d' % tid] = norm(c_type(handler.get_type(tid)))
         except Exception as e:
             out['type%d' % tid] = type(e).__name__
-    for aid in (100, 101, int(AttrId.warfare_buff_1_id)):
+    for aid in (100, 101, int(AttrId.warfare_buff_1_id), int(AttrId.mass)):
         try:
             out['attr%d' % aid] = norm(c_flat(handler.get_attr(aid), ATTR_FIELDS))
         except Exception as e:
@@ -580,6 +583,18 @@ def served(handler):
         out['effect7'] = norm(c_effect(handler.get_effect(7)))
     except Exception as e:
         out['effect7'] = type(e).__name__
+    dangling = []
+    for tid in [1, 2] + list(range(10, 18)):
+        try:
+            t = handler.get_type(tid)
+        except Exception:
+            continue
+        for aid in t.attrs:
+            try:
+                handler.get_attr(aid)
+            except Exception:
+                dangling.append((tid, int(aid)))
+    out['type-attributes-without-definition'] = sorted(dangling)
     for bid in (20, 21):
         try:
             out['buff%d' % bid] = norm(sort_c([c_flat(b, BUFF_FIELDS) for b in handler.get_buff_templates(bid)]))
